@@ -575,13 +575,16 @@ class NDNApp:
         try:
             data_name, content, pkt_context = await aio.wait_for(future, timeout=lifetime/1000.0)
         except TimeoutError:
-            if node.timeout(future):
-                del self._pit[node_name]
+            self._remove_pending(future, node_name, node)
             raise types.InterestTimeout()
         except aio.CancelledError:
             raise types.InterestCanceled()
         # ValidationError, InterestNack are passed to the parent caller
         return data_name, content, pkt_context
+
+    def _remove_pending(self, future: aio.Future, node_name: enc.FormalName, node: InterestTreeNode):
+        if node.timeout(future) and self._pit.get(node_name) is node:
+            del self._pit[node_name]
 
     async def _on_data(self, name: enc.FormalName, meta_info: enc.MetaInfo,
                        content: enc.BinaryStr | None, sig: enc.SignaturePtrs,
